@@ -31,12 +31,7 @@ quick_time_conv = [
  {"entry": "HCDate", "args": [[2000, 2000]]},
  {"entry": "HCDateTime", "args": [[2024, 2024, -480], [1970, 1970, 0]]},
 ]
-thorough_time_conv = [
- {"entry": "HCDateDec"}, {"entry": "HCTimeDec"}, {"entry": "HCTime"},
- {"entry": "HCDateTimeDec", "args": [[0], [1], [2]]},
- {"entry": "HCDate", "args": [[1901, 2000], [2001, 2100]]},
- {"entry": "HCDateTime", "args": [[2000, 2000, 0], [1969, 1970, 0], [2024, 2024, -480], [2024, 2024, 345]]},
-]
+thorough_time_conv = quick_time_conv + [{"entry": "HCDateTimeDec", "args": [[2]]}]
 quick_time_json = [
  {"entry": "HJUnixDec", "args": [[0, 10, 0], [0, 10, 1], [1, 13, 0], [1, 14, 1], [2, 16, 0], [3, 19, 0], [3, 19, 1]]},
  {"entry": "HJUnixEnc", "args": [[0, 10, 0], [0, 19, 1], [1, 13, 0], [1, 14, 1], [2, 16, 1], [3, 19, 0]]},
@@ -49,11 +44,11 @@ quick_time_json = [
 thorough_time_json = [
  {"entry": "HJUnixDec", "args": [[u, d, n] for u in range(4) for d in ALLD64 for n in (0, 1)]},
  {"entry": "HJUnixEnc", "args": [[u, d, n] for u in range(4) for d in ALLD64 for n in (0, 1)]},
- {"entry": "HJNumText", "args": [[d, n] for d in range(1, 14) for n in (0, 1)]},
+ {"entry": "HJNumText", "args": [[6, 0], [10, 1], [13, 0]]},
  {"entry": "HJDateDec"}, {"entry": "HJTimeDec"}, {"entry": "HJTime"},
  {"entry": "HJDateTimeDec", "args": [[0], [1], [2]]},
- {"entry": "HJDate", "args": [CENT[i] for i in (0, 1, 2, 17, 18, 19, 20, 21, 22, 23, 24, 100)]},
- {"entry": "HJDateTime", "args": [[100*c+1, 100*c+100, 0] for c in range(16, 24)] + [[2000, 2000, o] for o in (330, -480, 840, -1, 1439, -1439)] + [[1, 1, -1], [9999, 9999, 1]]},
+ {"entry": "HJDate", "args": [[2000, 2000], [1999, 1999], [0, 0]]},
+ {"entry": "HJDateTime", "args": [[2000, 2000, 0], [2024, 2024, 330], [2024, 2024, -480]]},
 ]
 quick_json = [
  {"entry": "HJInt8"}, {"entry": "HJUint8"}, {"entry": "HJInt16"}, {"entry": "HJUint16"}, {"entry": "HJUUID"}, {"entry": "HJIPv4"},
@@ -87,8 +82,8 @@ spec = {
   "duration": "json.EncodeDuration (ogen's port of time.Duration.String) writes the text of time.Duration.String for EVERY int64 duration (seven magnitude classes x sign, MinInt64; quick leaves the negative > 100h class to thorough); decoding (time.ParseDuration, float64 scaling) is not decided",
   "uuid": "all 2^128 values (16 symbolic bytes)", "ipv4": "all 2^32 addresses", "ipv6": "six address shapes with 2..4 symbolic bytes each (IPv4-mapped ::ffff:a.b.c.d, 2001:db8::X:Y, X::Y, 0:0:X:0:0:Y:0:0, fe80::X, ::X:Y; quick: three of them): the encoder's text decodes back to the same address as IPv6 - NOT all 2^128 addresses", "mac": "length 6: all 2^48 values; thorough also lengths 8 and 20 with four symbolic bytes",
   "unix": "seconds/milli/micro/nano: value -> Time -> value and Time -> text -> Time for every int64 of the listed digit-count classes (quick: seconds 1/10/19 digits both signs, milli/micro/nano 1 digit, milli also 14 digits; thorough: every digit count); the JSON pairs likewise (quick: seconds and milli, 13-14 digits). Negative milli/micro/nano values with more than 6 digits are OUTSIDE the claim (sdiv/srem chains: solver unknown under the cap)"},
- "bounds_time_formats": "date / time / date-time (time.Format + time.Parse behind json.Encode*/Decode* and conv.*ToString/To*): (a) DECODING half, solver-decided for ALL texts of the format's shape at once - eight/six/fourteen(+four) arbitrary digits in YYYY-MM-DD, HH:MM:SS, YYYY-MM-DDTHH:MM:SS followed by Z, +hh:mm or -hh:mm: every text whose fields are in range (own calendar rule incl. the 400-year leap rule) is accepted and yields the instant/offset it denotes (reference constructor time.Date); refusal of out-of-range texts is NOT asserted (C13 does not state it; Go accepts the offset +24:60). (b) the COMPOSITION encode -> decode for a symbolic instant: time of day: all 86400 seconds; date: quick the year 2000 (366 days incl. 29 February of a year divisible by 400), thorough every day of the years 0000..0100, 1601..2400 (one whole 400-year cycle) and 9901..9999 in century classes; date-time: quick every second of 2000 in UTC and of 2024 at +05:30, thorough every second of 1601..2400 in UTC plus the year 2000 at six offsets and the years 0001 / 9999 at -00:01 / +00:01. The offset is a concrete case parameter. Outside: fractional seconds, years outside 0000..9999, custom layouts (NewTimeEncoder with a user layout), zone names",
- "bounds_unix_number_form": "JSON NUMBER-form unix timestamps are decided in halves that meet at the decimal text: DECODING (HJUnixDec) - every canonical decimal text of d digits (quick: 10/13/14/16/19 digits; thorough: every d in 1..19, both signs, all four units) decodes to exactly the instant of that many units; ENCODING (HJUnixEnc) - for every int64 v of the class the instant's unit count is v and Encode<Unit> writes exactly the bytes jx writes for that count (quick: 10/13/14/16/19 digits; thorough: every class, i.e. every int64, all units); that jx's number writer (third-party, packed three-digit table) writes strconv's decimal text (HJNumText) is decided for values of up to 13 digits (quick 6 and 10) and NOT beyond (solver unknown at the cap)",
+ "bounds_time_formats": "date / time / date-time (time.Format + time.Parse behind json.Encode*/Decode* and conv.*ToString/To*): (a) DECODING half, solver-decided for ALL texts of the format's shape at once - eight/six/fourteen(+four) arbitrary digits in YYYY-MM-DD, HH:MM:SS, YYYY-MM-DDTHH:MM:SS followed by Z, +hh:mm or -hh:mm: every text whose fields are in range (own calendar rule incl. the 400-year leap rule) is accepted and yields the instant/offset it denotes (reference constructor time.Date); refusal of out-of-range texts is NOT asserted (C13 does not state it; Go accepts the offset +24:60). (b) the COMPOSITION encode -> decode for a symbolic instant: time of day: all 86400 seconds; date: quick the year 2000 (366 days incl. 29 February of a year divisible by 400), thorough also the years 1999 and 0000 (whole centuries took 4-9 minutes each; the thorough tier with all of them was not run to completion in the session that added them, so they are not registered); date-time: quick every second of 2000 in UTC and of 2024 at +05:30, thorough also 2024 at -08:00. The offset is a concrete case parameter. Outside: fractional seconds, years outside 0000..9999, custom layouts (NewTimeEncoder with a user layout), zone names",
+ "bounds_unix_number_form": "JSON NUMBER-form unix timestamps are decided in halves that meet at the decimal text: DECODING (HJUnixDec) - every canonical decimal text of d digits (quick: 10/13/14/16/19 digits; thorough: every d in 1..19, both signs, all four units) decodes to exactly the instant of that many units; ENCODING (HJUnixEnc) - for every int64 v of the class the instant's unit count is v and Encode<Unit> writes exactly the bytes jx writes for that count (quick: 10/13/14/16/19 digits; thorough: every class, i.e. every int64, all units); that jx's number writer (third-party, packed three-digit table) writes strconv's decimal text (HJNumText) is decided for values of 6, 10 and (thorough) 13 digits and NOT beyond (solver unknown at the cap)",
  "assumptions": ["the process's local time zone is UTC (time.initLocal is modelled as leaving the empty Location, which package time treats as UTC; the native replay runs with TZ=UTC)", "time.Date / time.Unix are the reference constructors for 'the instant a text denotes' (Go standard library; executed from SSA like everything else, not re-proved against a second calendar except through the composition checks)", "strconv's digit-pair table smallsString, jx/uuid hex tables: replaced by arithmetic closed forms only after the closed form was checked against EVERY entry of the real table (verified table summary)", "unique.Make (netip zone interning) modelled as interning by value", "queries with wide division/remainder go first through the engine's integer translation (bit-vector to Int with interval-justified mod elimination, self-checked on every query against the bit-vector evaluator and differentially validated against the bit-vector solvers on ~5000 small queries), then cvc5 --solve-bv-as-int=sum, then z3 5.1 / z3 4.8.12 bit-blasting"],
  "out_of_claim": "that the third-party jx number WRITER produces the canonical decimal text for values of 14..19 digits (solver unknown at the cap; ogen's own part of the number-form unix encoding, the decoding half, the string forms and the conv pairs are decided at full width); float32/float64 (shortest-decimal algorithms, FP theory), fractional seconds and custom time layouts, date-times with a symbolic zone offset on the ENCODING side (offsets are concrete case parameters there), duration DECODING and conv's duration pair (time.ParseDuration scales fractions in float64), URL, IPv6 addresses outside the six listed shapes, zoned addresses, big.* - not decided by this check"
 }
